@@ -445,6 +445,7 @@ void LabeledUndirectedGraph<EdgeLabel>::removeVertexFromEdgeList(
                 if (i <= *j) {
                     --Directed::edgeNumber;
                 }
+                Directed::edgeLabels.erase(orderedEdge(i, *j));
                 Directed::adjacencyList[i].erase(j++);
             } else {
                 ++j;
